@@ -1,4 +1,5 @@
 import NbioVerif.Properties.C15
+import NbioVerif.Lemmas.SrcBridgeWs
 #print axioms Ws.c15_delivered_within
 #print axioms Ws.c15_buffered_within
 #print axioms Ws.c15_readAll_bound
@@ -16,3 +17,5 @@ import NbioVerif.Properties.C15
 #print axioms Ws.c15_control_send_frame
 #print axioms Ws.c15_control_send_close
 #print axioms Ws.c15_control_send_ok
+#print axioms Ws.src_isMessageTooLarge
+#print axioms Ws.src_maxControl
